@@ -1,6 +1,7 @@
 package c18
 
 import (
+	"math/bits"
 	"strings"
 
 	"pgregory.net/rapid"
@@ -18,11 +19,52 @@ var (
 	symAll     = []byte(refmrz.Alphabet)
 )
 
+// uni draws an integer uniformly from [0,n).  rapid's own integer and
+// SampledFrom generators are deliberately biased towards small values
+// (geometric bit length), which would concentrate mutation positions in the
+// first line and symbols on the digits; single bits are unbiased.
+func uni(rt *rapid.T, label string, n int) int {
+	if n <= 1 {
+		return 0
+	}
+	k := bits.Len(uint(n - 1))
+	for {
+		v := 0
+		for _, b := range rapid.SliceOfN(rapid.Bool(), k, k).Draw(rt, label) {
+			v <<= 1
+			if b {
+				v |= 1
+			}
+		}
+		if v < n {
+			return v
+		}
+	}
+}
+
+func uniRange(rt *rapid.T, label string, lo, hi int) int { return lo + uni(rt, label, hi-lo+1) }
+
+func pick[T any](rt *rapid.T, label string, set []T) T { return set[uni(rt, label, len(set))] }
+
+// drawStr draws n symbols uniformly from set (10 bits per symbol, modulo
+// bias below 4 %).
 func drawStr(rt *rapid.T, label string, set []byte, n int) string {
 	if n <= 0 {
 		return ""
 	}
-	return string(rapid.SliceOfN(rapid.SampledFrom(set), n, n).Draw(rt, label))
+	bs := rapid.SliceOfN(rapid.Bool(), 10*n, 10*n).Draw(rt, label)
+	out := make([]byte, n)
+	for i := range out {
+		v := 0
+		for _, b := range bs[10*i : 10*i+10] {
+			v <<= 1
+			if b {
+				v |= 1
+			}
+		}
+		out[i] = set[v%len(set)]
+	}
+	return string(out)
 }
 
 // weighted picks an index with the given integer weights.
@@ -31,7 +73,7 @@ func weighted(rt *rapid.T, label string, w ...int) int {
 	for _, x := range w {
 		tot += x
 	}
-	v := rapid.IntRange(0, tot-1).Draw(rt, label)
+	v := uni(rt, label, tot)
 	for i, x := range w {
 		if v < x {
 			return i
@@ -53,7 +95,7 @@ func (d *doc) feat(s string) { d.Feats = append(d.Feats, s) }
 
 func genName(rt *rapid.T, d *doc, capacity int) (string, string) {
 	comp := func(label string, maxLen int) string {
-		return drawStr(rt, label, symLetters, rapid.IntRange(1, maxLen).Draw(rt, label+"-len"))
+		return drawStr(rt, label, symLetters, uniRange(rt, label+"-len", 1, maxLen))
 	}
 	long := weighted(rt, "name-long", 4, 1) == 1 // provoke names that fill / overflow the field
 	maxLen := 8
@@ -96,7 +138,7 @@ func withSeparator(rt *rapid.T, label, s string) string {
 	if len(s) < 3 {
 		return s
 	}
-	i := rapid.IntRange(1, len(s)-2).Draw(rt, label)
+	i := uniRange(rt, label, 1, len(s)-2)
 	return s[:i] + "<" + s[i+1:]
 }
 
@@ -110,7 +152,7 @@ func genOptional(rt *rapid.T, d *doc, label string, capacity int) string {
 		d.feat(label + "-empty")
 		return ""
 	case 1:
-		n = rapid.IntRange(1, capacity).Draw(rt, label+"-len")
+		n = uniRange(rt, label+"-len", 1, capacity)
 	default:
 		n = capacity
 		d.feat(label + "-full")
@@ -134,7 +176,7 @@ func genOptional(rt *rapid.T, d *doc, label string, capacity int) string {
 
 func genDate(rt *rapid.T, label string) string {
 	two := func(l string, lo, hi int) string {
-		v := rapid.IntRange(lo, hi).Draw(rt, l)
+		v := uniRange(rt, l, lo, hi)
 		return string([]byte{byte('0' + v/10), byte('0' + v%10)})
 	}
 	return two(label+"-yy", 0, 99) + two(label+"-mm", 1, 12) + two(label+"-dd", 1, 31)
@@ -145,13 +187,13 @@ func genDate(rt *rapid.T, label string) string {
 func genDoc(rt *rapid.T) *doc {
 	d := &doc{}
 	f := &d.F
-	f.Layout = rapid.SampledFrom([]string{"TD1", "TD2", "TD3"}).Draw(rt, "layout")
+	f.Layout = pick(rt, "layout", []string{"TD1", "TD2", "TD3"})
 
 	// document code
 	if f.Layout == "TD3" {
 		f.DocCode = "P"
 	} else {
-		f.DocCode = string(rapid.SampledFrom([]byte("IAC")).Draw(rt, "doccode-1"))
+		f.DocCode = string(pick(rt, "doccode-1", []byte("IAC")))
 	}
 	if weighted(rt, "doccode-2", 1, 1) == 1 {
 		f.DocCode += drawStr(rt, "doccode-2c", symLetters, 1)
@@ -169,13 +211,13 @@ func genDoc(rt *rapid.T) *doc {
 	var n int
 	switch kind {
 	case 0:
-		n = rapid.IntRange(1, 8).Draw(rt, "docno-len")
+		n = uniRange(rt, "docno-len", 1, 8)
 		d.feat("docno-short")
 	case 1:
 		n = 9
 		d.feat("docno-9")
 	default:
-		n = rapid.IntRange(10, maxNo).Draw(rt, "docno-len")
+		n = uniRange(rt, "docno-len", 10, maxNo)
 		if n == maxNo {
 			d.feat("docno-extended-max")
 		}
@@ -192,7 +234,7 @@ func genDoc(rt *rapid.T) *doc {
 		if n > 9 {
 			hi = 8
 		}
-		i := rapid.IntRange(1, hi).Draw(rt, "docno-sep-pos")
+		i := uniRange(rt, "docno-sep-pos", 1, hi)
 		f.DocNo = f.DocNo[:i] + "<" + f.DocNo[i+1:]
 		d.feat("docno-separator")
 	}
@@ -222,7 +264,7 @@ func genDoc(rt *rapid.T) *doc {
 		}
 	}
 	f.Expiry = genDate(rt, "expiry")
-	f.Sex = rapid.SampledFrom([]string{"M", "F", "<"}).Draw(rt, "sex")
+	f.Sex = pick(rt, "sex", []string{"M", "F", "<"})
 
 	// optional data
 	c1, c2 := refmrz.OptCapacity(f.Layout)
